@@ -14,16 +14,53 @@ package rangecheck
 //@   requires pl.api != nil
 //@   ensures @in-range nbBits > 0 ==> fits(ival(den(v)), nbBits)
 
-// number of limbs: the ceiling of varSize/limbSize
+// number of limbs: the ceiling of varSize/limbSize (dsz names the result: the function is pure)
+//@ spec func dsz(v int, l int) int = (v + l - 1) / l
 //@ contract decompSize
 //@   props C13
 //@   pure
 //@   requires limbSize >= 1 && varSize >= 0 && varSize < 4611686018427387904 && limbSize < 4611686018427387904
 //@   nopanic
 //@   ensures @ceil result * limbSize >= varSize && (result - 1) * limbSize < varSize && result >= 0
+//@   ensures @named result == dsz(varSize, limbSize)
 
 // the limb width of the commit strategy is one of 2..17 (so the table has at most 2^17 rows)
 //@ contract optimalWidth
 //@   props C13
 //@   ensures @width (2 <= result && result <= 17) || result == 0
 //@   loop 1 invariant @min minVal == 0 || (2 <= minVal && minVal < j)
+
+// commit strategy: the lookup query holds, for every checked variable, its nbLimbs hinted limbs and — whenever
+// nbLimbs*baseLength exceeds the requested width — one more entry (the most significant limb shifted up), so that no
+// variable is bounded by the limb grid only. needed(coll, base, i): number of query entries owed to the first i variables
+// (uninterpreted; unfolded along the loop's own walk, nbLimbs being pinned by decompSize's verified contract).
+//@ spec func needed(coll []checkedVariable, base int, i int) int
+//@ contract (*commitChecker).getOptimalBasewidth
+//@   trusted "optimalWidth's verified contract gives a width in 2..17 or 0; 0 would need every candidate's constraint count to be 2^63-1"
+//@   pure
+//@   ensures 2 <= result && result <= 17
+//@ contract (*commitChecker).buildTable
+//@   props C13
+//@   requires nbTable >= 0 && nbTable <= 131072
+//@   assigns
+//@   ensures len(result) == nbTable && fresh(result)
+//@   loop 1 invariant len(tbl) == nbTable && i >= 0
+//@ contract (*commitChecker).commit
+//@   props C13
+//@   requires c != nil && api != nil && alloc(c.collected) != alloc(c)
+//@   requires forall k int :: 0 <= k && k < len(c.collected) ==> 0 <= c.collected[k].bits && c.collected[k].bits < 1073741824
+//@   ensures @all-limbs-queried !old(c.closed) && old(len(c.collected)) > 0 ==> len(decomposed) == old(needed(c.collected, baseLength, len(c.collected)))
+//@   loop 1 lemma @needed0 needed(c.collected, baseLength, 0) == 0
+//@   loop 1 lemma @unfold 0 <= rangeindex + 1 && rangeindex + 1 < len(c.collected) ==> needed(c.collected, baseLength, rangeindex + 2) == needed(c.collected, baseLength, rangeindex + 1) + dsz(c.collected[rangeindex + 1].bits, baseLength) + (dsz(c.collected[rangeindex + 1].bits, baseLength) * baseLength > c.collected[rangeindex + 1].bits ? 1 : 0)
+//@   loop 1 invariant @count len(decomposed) == needed(c.collected, baseLength, rangeindex + 1)
+//@   loop 1 invariant @self c == old(c)
+//@   loop 2 invariant @self c == old(c)
+//@   loop 1 invariant @f-len len(c.collected) == old(len(c.collected)) && alloc(c.collected) == old(alloc(c.collected))
+//@   loop 1 invariant @f-dec alloc(decomposed) != alloc(c.collected) && alloc(collected) != alloc(c.collected) && alloc(decomposed) != alloc(c) && alloc(collected) != alloc(c)
+//@   loop 1 invariant @f-coef alloc(coef) != alloc(c.collected) && alloc(coef) != alloc(c)
+//@   loop 1 invariant @f-self alloc(c.collected) != alloc(c)
+//@   loop 2 invariant @f-len len(c.collected) == old(len(c.collected)) && alloc(c.collected) == old(alloc(c.collected))
+//@   loop 2 invariant @f-coef alloc(coef) != alloc(c.collected) && alloc(coef) != alloc(c)
+//@   loop 2 invariant @f-self alloc(c.collected) != alloc(c)
+//@   loop 2 invariant @widths forall k int :: 0 <= k && k < len(c.collected) ==> 0 <= c.collected[k].bits && c.collected[k].bits < 1073741824
+//@   loop 1 invariant @widths forall k int :: 0 <= k && k < len(c.collected) ==> 0 <= c.collected[k].bits && c.collected[k].bits < 1073741824
